@@ -17,7 +17,7 @@
 #include "srvstate.h"
 
 static int thorough;
-enum { K_SHAPES, K_DELIVERIES, K_SRV_SHAPES, K_CLI_SHAPES, K_REACTIONS, K_ACCEPTED, K_SAN = 20 };
+enum { K_SHAPES, K_DELIVERIES, K_SRV_SHAPES, K_CLI_SHAPES, K_REACTIONS, K_ACCEPTED, K_NAMECHK, K_SAN = 20 };
 static const char *DOM = "t.example.com";
 
 static void viol(const char *what, const char *fmt, ...)
@@ -64,11 +64,14 @@ static void residue(int proc, unsigned char *buf, size_t buflen, int dlen)
 typedef struct outcome { int nout; int alive0, alive1; uint64_t out[2], post[2]; char first[160]; } outcome;
 static h128 OH; static int nout; static char firstout[160];
 
+/* the DNS messages emitted during one delivery, kept for the absolute check in run_shapes() */
+static struct { int len; unsigned char d[700]; } OUTS[6]; static int nouts_kept;
 static void note_out(int kind, const struct sockaddr_storage *dst, const unsigned char *data, int len)
 {
 	h128_update(&OH, &kind, sizeof kind);
 	if (dst) { const char *a = vw_addr_str(dst); h128_update(&OH, a, strlen(a)); }
 	h128_update(&OH, &len, sizeof len); h128_update(&OH, data, len);
+	if (kind == 0 && nouts_kept < 6 && len <= 700) { OUTS[nouts_kept].len = len; memcpy(OUTS[nouts_kept].d, data, len); nouts_kept++; }
 	if (nout == 0) {
 		int o = snprintf(firstout, sizeof firstout, "%s %dB to %s:", kind == 3 ? "tun write" : "datagram", len, dst ? vw_addr_str(dst) : "-");
 		for (int i = 0; i < len && i < 24 && o < 150; i++) o += snprintf(firstout + o, sizeof firstout - o, " %02x", data[i]);
@@ -327,29 +330,97 @@ static void srv_shapes(int prestate)
 	pointer_shapes(0x90d, 1, 2, 10);
 }
 
+/* histories (server side): what an earlier datagram of somebody else left behind in the decoder's own variables is residue
+ * just like the bytes behind the datagram in the receive buffer.  The earlier datagram is a stateless echo request ('z'), so
+ * the state before the datagram under test is the same with and without it. */
+#define NHIST 5
+static const char *HISTN[NHIST] = { "after-an-echo-request-of-a-third-party", "after-another-echo-request-(TXT)", "after-a-maximum-length-echo-request",
+	/* ... and two that the server decodes and then drops without an answer (record type AAAA): nothing it calls afterwards scrubs the stack */
+	"after-an-unanswered-AAAA-query-for-an-echo-name", "after-an-unanswered-AAAA-query-for-a-version-request-name" };
+static void srv_deliver(const struct sockaddr_storage *src, const unsigned char *d, int len);
+static void deliver_history(int h)
+{
+	unsigned char pkt[800]; int n;
+	static struct sockaddr_storage y; static socklen_t yl;
+	if (!yl) vw_mkaddr(&y, &yl, "203.0.113.77", 7777);
+	char nm[260]; int l = 0;
+	if (h == 0) l = snprintf(nm, sizeof nm, "zqrs-private-words-of-a-third-party-0123456789");
+	else if (h == 1) l = snprintf(nm, sizeof nm, "Zanother-history-ABCDEFGH");
+	else { nm[0] = 'z'; for (l = 1; l < 200; l++) nm[l] = "abcdefghijklmnopqrstuvwxyz012345"[(l * 7) & 31]; }
+	if (h == 3) l = snprintf(nm, sizeof nm, "zwhat-the-third-party-asked-before");
+	if (h == 4) { n = tm_version(pkt, 0x7704, 28, 0x00000502, 0x4141, DOM); if (n < 0) vw_fatal("history datagram"); srv_deliver(&y, pkt, n); return; }
+	n = tm_query(pkt, sizeof pkt, 0x7700 + h, h == 1 ? 16 : h == 3 ? 28 : 10, nm, l, DOM, 0);
+	if (n < 0) vw_fatal("history datagram %d cannot be built", h);
+	srv_deliver(&y, pkt, n);
+}
+
+/* Absolute check (server side): the question name of whatever DNS message the server emits in reaction to a datagram - an
+ * answer, or the copy it forwards - is spelled by that datagram's own bytes.  A lenient walk over the datagram (labels as far
+ * as they are present, pointers to any offset inside it, 20 hops) gives the longest name its bytes can spell; the emitted
+ * name must be a prefix of it.  A name the datagram does not contain (left over from an earlier datagram, or from the stack)
+ * fails however the residues behind the datagram are filled.  Only messages bearing the datagram's own DNS id are looked at (a
+ * query may release the answer to an older, held one). */
+static int walk_name(const unsigned char *d, int len, char *out, int max)
+{
+	int off = 12, n = 0, hops = 0;
+	while (off < len) {
+		int c = d[off];
+		if ((c & 0xc0) == 0xc0) { if (off + 1 >= len) break; int t = ((c & 0x3f) << 8) | d[off + 1]; if (t >= len || ++hops > 20) break; off = t; continue; }
+		if (c == 0 || c > 63) break;
+		off++;
+		int avail = len - off, l = c < avail ? c : avail;
+		if (n && n < max - 1) out[n++] = '.';
+		for (int i = 0; i < l && n < max - 1; i++) out[n++] = (char)tolower(d[off + i]);
+		if (l < c) break;
+		off += c;
+	}
+	out[n] = 0;
+	return n;
+}
+static void check_names_from_own_bytes(const shape *sh, const char *where, const char *resname)
+{
+	char w[1400]; walk_name(sh->d, sh->len, w, sizeof w);
+	for (int i = 0; i < nouts_kept; i++) {
+		static rd_msg m; char err[128], o[300];
+		if (OUTS[i].len >= 3 && OUTS[i].d[0] == 0x10 && OUTS[i].d[1] == 0xd1 && OUTS[i].d[2] == 0x9e) continue;
+		if (rd_parse(OUTS[i].d, OUTS[i].len, &m, err) || m.qnamelen <= 1) continue;
+		if (OUTS[i].d[0] != sh->d[0] || OUTS[i].d[1] != sh->d[1]) continue;      /* another query's answer (a held one released by this datagram) */
+		rd_name_to_dotted(m.qname, m.qnamelen, o, sizeof o);
+		size_t ol = strlen(o); if (ol && o[ol - 1] == '.') o[--ol] = 0;
+		for (size_t k = 0; k < ol; k++) o[k] = (char)tolower((unsigned char)o[k]);
+		xp_count(K_NAMECHK, 1);
+		if (strncmp(o, w, ol)) viol("server-reaction-names-what-the-datagram-does-not-contain", "%s, %s (%s): the server emitted a DNS message about '%.80s' but the datagram's own bytes spell '%.80s'", where, sh->desc, resname, o, w);
+	}
+}
+
 static void run_shapes(int is_client, const char *where, void (*deliver)(const shape *))
 {
+	int nres = NRES + (is_client ? 0 : NHIST);
 	vw_snap *snap = vw_snapshot();
 	for (int i = 0; i < nsh; i++) {
 		shape *sh = &SH[i];
 		outcome ref; memset(&ref, 0, sizeof ref);
 		int reacted = 0;
 		xp_count(K_SHAPES, 1); xp_count(is_client ? K_CLI_SHAPES : K_SRV_SHAPES, 1);
-		for (int r = 0; r < NRES; r++) {
+		for (int r = 0; r < nres; r++) {
 			outcome o; memset(&o, 0, sizeof o);
-			cur_res = r; res_tail = sh->tail; res_taillen = sh->taillen;
-			h128_init(&OH); nout = 0; firstout[0] = 0;
+			cur_res = r < NRES ? r : 0; res_tail = sh->tail; res_taillen = sh->taillen;
+			if (r >= NRES) { deliver_history(r - NRES); if (!vw_alive(0)) vw_fatal("server gone after an echo request"); }
+			h128_init(&OH); nout = 0; firstout[0] = 0; nouts_kept = 0;
 			deliver(sh);
+			if (!is_client && sh->len >= 12) check_names_from_own_bytes(sh, where, r < NRES ? RESN[r] : HISTN[r - NRES]);
 			xp_count(K_DELIVERIES, 1);
 			o.nout = nout; o.alive0 = vw_alive(0); o.alive1 = is_client ? vw_alive(1) : 0;
 			h128_final(&OH, o.out);
 			post_state(o.post, !is_client);
 			snprintf(o.first, sizeof o.first, "%s", firstout);
+			if (getenv("C12_DEBUG") && strstr(sh->desc, getenv("C12_DEBUG"))) dprintf(2, "%s | %s | %s: %d outputs (%s) post %016llx\n", where, sh->desc, r < NRES ? RESN[r] : HISTN[r - NRES], o.nout, o.first, (unsigned long long)o.post[0]);
 			if (r == 0) { ref = o; reacted = nout > 0; }
 			else if (o.nout != ref.nout || memcmp(o.out, ref.out, sizeof o.out) || o.alive0 != ref.alive0 || o.alive1 != ref.alive1 || memcmp(o.post, ref.post, sizeof o.post)) {
 				const char *what = (o.nout != ref.nout || memcmp(o.out, ref.out, sizeof o.out)) ? "reaction-depends-on-stale-buffer" : (o.alive0 != ref.alive0 || o.alive1 != ref.alive1) ? "exit-depends-on-stale-buffer" : "state-depends-on-stale-buffer";
 				char sig[100]; snprintf(sig, sizeof sig, "%s-%s", is_client ? "client" : "server", what);
-				viol(sig, "%s, %s: with %s after the datagram: %d outputs (%s); with %s: %d outputs (%s)%s", where, sh->desc, RESN[0], ref.nout, ref.first[0] ? ref.first : "none", RESN[r], o.nout, o.first[0] ? o.first : "none",
+				if (r >= NRES) snprintf(sig, sizeof sig, "server-%s", what[0] == 'r' ? "reaction-depends-on-earlier-datagram" : what[0] == 'e' ? "exit-depends-on-earlier-datagram" : "state-depends-on-earlier-datagram");
+				viol(sig, "%s, %s: with %s after the datagram: %d outputs (%s); %s %s: %d outputs (%s)%s", where, sh->desc, RESN[0], ref.nout, ref.first[0] ? ref.first : "none", r < NRES ? "with" : "delivered", r < NRES ? RESN[r] : HISTN[r - NRES], o.nout, o.first[0] ? o.first : "none",
 				     memcmp(o.post, ref.post, sizeof o.post) ? "; post-states differ" : "");
 			}
 			vw_restore(snap);
@@ -359,8 +430,8 @@ static void run_shapes(int is_client, const char *where, void (*deliver)(const s
 	}
 	vw_snap_free(snap);
 	__atomic_fetch_add(&XS->states, nsh, __ATOMIC_RELAXED);
-	__atomic_fetch_add(&XS->transitions, (long)nsh * NRES, __ATOMIC_RELAXED);
-	__atomic_fetch_add(&XS->execs, (long)nsh * NRES, __ATOMIC_RELAXED);
+	__atomic_fetch_add(&XS->transitions, (long)nsh * nres, __ATOMIC_RELAXED);
+	__atomic_fetch_add(&XS->execs, (long)nsh * nres, __ATOMIC_RELAXED);
 }
 
 static void srv_deliver_shape(const shape *sh)
@@ -521,7 +592,7 @@ static void job(int j)
 	if (j < 4) {
 		srv_boot(j);
 		srv_shapes(j);
-		xp_sample("%s: %d datagram shapes x %d residues, e.g. '%s' / '%s'", SRV_PRE[j], nsh, NRES, SH[nsh / 3].desc, SH[nsh - 20].desc);
+		xp_sample("%s: %d datagram shapes x (%d residues + %d histories), e.g. '%s' / '%s'", SRV_PRE[j], nsh, NRES, NHIST, SH[nsh / 3].desc, SH[nsh - 20].desc);
 		run_shapes(0, SRV_PRE[j], srv_deliver_shape);
 		return;
 	}
@@ -570,8 +641,8 @@ int main(int argc, char **argv)
 	hc_quiet();
 	xp_run_jobs(4 + 7, job, a.workers);
 	char extra[400];
-	snprintf(extra, sizeof extra, "\"shapes\":%ld,\"deliveries\":%ld,\"server_shapes\":%ld,\"client_shapes\":%ld,\"shapes_with_a_reaction\":%ld,\"residues\":%d,\"sanitizer_notes_for_C05_C06\":%ld",
-		 XS->counters[K_SHAPES], XS->counters[K_DELIVERIES], XS->counters[K_SRV_SHAPES], XS->counters[K_CLI_SHAPES], XS->counters[K_REACTIONS], NRES, XS->counters[K_SAN]);
+	snprintf(extra, sizeof extra, "\"shapes\":%ld,\"deliveries\":%ld,\"server_shapes\":%ld,\"client_shapes\":%ld,\"shapes_with_a_reaction\":%ld,\"emitted_names_checked_against_own_bytes\":%ld,\"histories\":%d,\"residues\":%d,\"sanitizer_notes_for_C05_C06\":%ld",
+		 XS->counters[K_SHAPES], XS->counters[K_DELIVERIES], XS->counters[K_SRV_SHAPES], XS->counters[K_CLI_SHAPES], XS->counters[K_REACTIONS], XS->counters[K_NAMECHK], NHIST, NRES, XS->counters[K_SAN]);
 	xp_print_stats(extra);
 	return 0;
 }
